@@ -202,6 +202,32 @@ def run(ck):
         elif alone_exc and caller not in alone_exc:
             fails.append(("caller_receives_a_thrown_exception", dict(input=l, threads=th), "refine_meshes on %s with %d threads delivered %s; the cells that fail alone throw %s" % (kinds, th, caller[:160], sorted(x[:80] for x in alone_exc))))
     ck.notes["refine_meshes_lists_with_failing_cells"] = nrm
+    # ---- 3c. the two parallel sections of mesh_writer::write: an unwritable cell file, an unwritable face file, or both, with 1, 2 and
+    # 4 threads: the caller receives an exception exactly when a section failed
+    try:
+        ioimpl = vlib.build_driver("io")
+        wd = os.path.join(vlib.CACHE, "tmp", "c15_wx_%d" % os.getpid())
+        n0_, f_ = tissue.icosphere(1)
+        cells_ = [(i_, tissue.transform(n0_, None, (i_ * 3.0, 0, 0), (1.0, 1.0, 1.0)), f_) for i_ in range(2)]
+        import contact_common as cc2_
+        base_ = tissue.fmt_tissue(tissue.params(), cc2_.types_for([0, 0]), cells_)
+        wl = []; wm = []
+        for th in (1, 2, 4):
+            for which in (0, 1, 2, 3):
+                wl.append("WX %s W %s %d %d" % (base_, wd, th, which)); wm.append((th, which))
+        wouts, _wcr = vlib.run_lines_resilient([ioimpl], wl, timeout=600)
+        import shutil as _sh; _sh.rmtree(wd, ignore_errors=True)
+        nwx = 0
+        for l, (th, which), o in zip(wl, wm, wouts):
+            if o is None:
+                fails.append(("exception_reaches_the_caller", dict(input=l, threads=th), "mesh_writer::write with unwritable %s file(s), %d threads: the process died" % ({1: "cell", 2: "face", 3: "cell and face"}.get(which, "no"), th))); continue
+            nwx += 1
+            if (which == 0) != o.startswith("NONE"):
+                fails.append(("exception_raised_iff_a_task_threw", dict(input=l, threads=th, which=which),
+                              "mesh_writer::write with %s, %d threads: the caller received %s" % ({0: "both files writable", 1: "an unwritable cell file", 2: "an unwritable face file", 3: "both files unwritable"}[which], th, o[:100])))
+        ck.notes["mesh_writer_sections_with_unwritable_files"] = nwx
+    except vlib.BuildError as e:
+        ck.notes["mesh_writer_sections_with_unwritable_files"] = "driver build failed: " + str(e)[-200:]
     # ---- 4. ThreadSanitizer as observer of the division protocol
     tsan_note = "not run"
     try:
